@@ -45,7 +45,12 @@ type StrAlt struct {
 	Cond string
 	S    string
 }
-type StructV struct{ F []Value }
+type StructV struct {
+	F []Value
+	// Origin: access path of the lazy input this struct was materialised from ("" once modified or for
+	// structs built during the run); lets pure methods of input objects be modelled by named symbols
+	Origin string
+}
 type ArrayV struct{ E []Value }
 
 type Obj struct {
